@@ -376,6 +376,8 @@ fn replay(ctx: &Ctx, w: Value) -> ! {
         let part = w["part"].as_str().unwrap_or("");
         if part == "udp" {
             udp_out(&UdpCase::from_json(&w["case"]).expect("udp case"))
+        } else if part == "mixed" {
+            crate::mixed::run(&crate::mixed::MixedCase::from_json(&w["case"]).expect("mixed case"))
         } else {
             let scn = Scn::from_json(&w["scn"]).expect("scn");
             let o = run_scn(&scn, ROUND_CAP);
@@ -408,10 +410,12 @@ pub fn run(ctx: &Ctx) -> ! {
         replay(ctx, w);
     }
     let n_dir = directed().len() as u64;
+    let n_mdir = crate::mixed::directed().len() as u64;
+    let n_mixed: u64 = ctx.pick(5_000, 200_000);
     let n_own: u64 = ctx.pick(30_000, 1_200_000);
     let n_shared: u64 = ctx.pick(15_000, 600_000);
     let n_udp: u64 = ctx.pick(5_000, 200_000);
-    let total = n_dir + 10 * (n_own.div_ceil(6)).max(n_shared.div_ceil(3)).max(n_udp);
+    let total = n_dir + n_mdir + 11 * (n_own.div_ceil(6)).max(n_shared.div_ceil(3)).max(n_udp).max(n_mixed);
     let c2 = ctx.clone();
     let mut rep: Report = vcore::run_parallel(
         ctx,
@@ -428,14 +432,22 @@ pub fn run(ctx: &Ctx) -> ! {
                 o.saw("directed", name.to_string());
                 return o;
             }
-            // interleave the three generated parts 6 : 3 : 1 so that a budget
+            if i < n_dir + n_mdir {
+                let (name, case) = &crate::mixed::directed()[(i - n_dir) as usize];
+                let mut o = crate::mixed::run(case);
+                o.count("directed_scenarios", 1);
+                o.saw("directed", name.to_string());
+                return o;
+            }
+            // interleave the four generated parts 6 : 3 : 1 : 1 so that a budget
             // cut on a slow machine thins out every part alike
-            let j = i - n_dir;
-            let (block, r) = (j / 10, j % 10);
+            let j = i - n_dir - n_mdir;
+            let (block, r) = (j / 11, j % 11);
             let (part, k) = match r {
                 0 => (2, block),
-                1..=3 => (1, block * 3 + (r - 1)),
-                _ => (0, block * 6 + (r - 4)),
+                1 => (3, block),
+                2..=4 => (1, block * 3 + (r - 2)),
+                _ => (0, block * 6 + (r - 5)),
             };
             match part {
                 0 if k < n_own => {
@@ -453,6 +465,10 @@ pub fn run(ctx: &Ctx) -> ! {
                     let mut rng = Rng::new(c2.scenario_seed("c16-udp", k));
                     udp_out(&gen_udp(&mut rng))
                 }
+                3 if k < n_mixed => {
+                    let mut rng = Rng::new(c2.scenario_seed("c16-mixed", k));
+                    crate::mixed::run(&crate::mixed::gen(&mut rng))
+                }
                 _ => {
                     let mut o = ScenarioOut::default();
                     o.discarded = Some("index-padding".into());
@@ -467,7 +483,7 @@ pub fn run(ctx: &Ctx) -> ! {
         rep,
         Finish {
             level: "exploration",
-            rule: "directed cap/MTU scenarios + seeded walks over mtu/loopback_mtu/send_buf_cap/recv_buf_cap (incl. caps below one MSS, MSS = 1, asymmetric caps), IPv4/IPv6, loopback (packets observed through the hook #3 tap) and cross-host paths with drop/hold/reorder schedules, writers probing try_write against netstat + C06's walks re-judged + UDP send_to around the MTU limit; monitors: payload <= MSS on every segment, bytes beyond the highest ACK delivered to the sender <= last window delivered to it, netstat send_q/recv_q <= caps after every round, API-level conservation, try_write/partial-write/parked-write return values; a TCP run is non-trivial when data segments and window bounds were evaluated and some bound was tight (queue at its cap, zero window, segment of exactly MSS, in-flight equal to the window); distinct = distinct digest of packet trace + API trace",
+            rule: "directed cap/MTU scenarios + mixed-interface cases (every host has a loopback connection and one end of a cross-host connection of the same family, all writers start in the same round, both socket-table orders, loopback_mtu above and below mtu, v4/v6; MSS monitor keyed by the interface the segment leaves from) + seeded walks over mtu/loopback_mtu/send_buf_cap/recv_buf_cap (incl. caps below one MSS, MSS = 1, asymmetric caps), IPv4/IPv6, loopback (packets observed through the hook #3 tap) and cross-host paths with drop/hold/reorder schedules, writers probing try_write against netstat + C06's walks re-judged + UDP send_to around the MTU limit; monitors: payload <= MSS on every segment, bytes beyond the highest ACK delivered to the sender <= last window delivered to it, netstat send_q/recv_q <= caps after every round, API-level conservation, try_write/partial-write/parked-write return values; a TCP run is non-trivial when data segments and window bounds were evaluated and some bound was tight (queue at its cap, zero window, segment of exactly MSS, in-flight equal to the window); distinct = distinct digest of packet trace + API trace",
             assumptions: vec![
                 "window clause: A = highest valid cumulative ACK the driver delivered to the sender, W = window of the last ACK-bearing non-RST segment (SYN/SYN-ACK before that) it delivered, evaluated per side once the wire shows that side established".into(),
                 "netstat is trusted for send_q / recv_q; the API-level conservation checks use only write/read return values and wire ACK numbers".into(),
@@ -497,6 +513,10 @@ pub fn run(ctx: &Ctx) -> ! {
                 "udp_oversize_rejected_emsgsize",
                 "udp_exactly_at_limit",
                 "udp_datagrams_checked",
+                "mixed_cases",
+                "mixed_passes_with_both_interfaces",
+                "mixed_loopback_data_segments",
+                "mixed_external_data_segments",
             ],
         },
     )
